@@ -412,6 +412,49 @@ BD_Shape<T>::minimized_congruences() const {
 
 template <typename T>
 void
+BD_Shape<T>::check_constraint(const char* method, const Constraint& c) const {
+  // Dimension-compatibility check.
+  if (c.space_dimension() > space_dimension()) {
+    throw_dimension_incompatible(method, c);
+  }
+  if (c.is_strict_inequality()) {
+    // Nontrivial strict inequalities are not allowed.
+    if (!c.is_inconsistent() && !c.is_tautological()) {
+      throw_invalid_argument(method, "strict inequalities are not allowed");
+    }
+    return;
+  }
+  dimension_type num_vars = 0;
+  dimension_type i = 0;
+  dimension_type j = 0;
+  PPL_DIRTY_TEMP_COEFFICIENT(coeff);
+  // Constraints that are not bounded differences are not allowed.
+  if (!BD_Shape_Helpers::extract_bounded_difference(c, num_vars, i, j, coeff)) {
+    throw_invalid_argument(method,
+                           "c is not a bounded difference constraint");
+  }
+}
+
+template <typename T>
+void
+BD_Shape<T>::check_congruence(const char* method, const Congruence& cg) const {
+  // Dimension-compatibility check.
+  if (cg.space_dimension() > space_dimension()) {
+    throw_dimension_incompatible(method, cg);
+  }
+  if (cg.is_proper_congruence()) {
+    // Non-trivial and proper congruences are not allowed.
+    if (!cg.is_tautological() && !cg.is_inconsistent()) {
+      throw_invalid_argument(method,
+                             "cg is a non-trivial, proper congruence");
+    }
+    return;
+  }
+  check_constraint(method, Constraint(cg));
+}
+
+template <typename T>
+void
 BD_Shape<T>::add_constraint(const Constraint& c) {
   // Dimension-compatibility check.
   if (c.space_dimension() > space_dimension()) {
